@@ -150,3 +150,40 @@ package base
 //@   ensures[selects-the-entry-of-that-key] has(pcounter.keySetPairs, lastmks) && pcounter.keySetPairs[lastmks].inputCounter == result && pcounter.currentCustomCounters === pcounter.keySetPairs[lastmks].customCounters
 //@   ensures[existing-entry-is-reused] old(has(pcounter.keySetPairs, now(lastmks))) ==> result == old(pcounter.keySetPairs[now(lastmks)].inputCounter)
 //@   ensures[key-buffer-reset] len(pcounter.mergeKeyBuffer) == 0
+
+// ==== counter providers (C19): a count is kept as (value already written to the metric) + (unwritten value); counting adds
+// exactly one record / its length to the unwritten part, flushing moves the unwritten part into the metric: the total
+// written + unwritten never loses or invents a count. mval: ghost value of a Prometheus metric cell (stdlib.spec).
+//@ pure func vtotal(v *valueCounterProvider) int := mval[ref(v.metric)] + v.unwrittenValue
+//@ func (vprov *valueCounterProvider) UpdateMetric()
+//@   property C19
+//@   requires vprov != nil && vprov.metric != nil
+//@   modifies vprov.unwrittenValue, mval[ref(vprov.metric)]
+//@   ensures[flush-conserves-the-total] vtotal(vprov) == old(vtotal(vprov)) && vprov.unwrittenValue == 0
+
+//@ func (icounter *LogInputCounterSet) CountRecordPass(record *LogRecord)
+//@   property C19
+//@   requires icounter != nil && record != nil && record.RawLength >= 0 && icounter.passedRecordsCountTotal.unwrittenValue < 4611686018427387904 && icounter.passedRecordsLengthTotal.unwrittenValue < 4611686018427387904 && record.RawLength < 4611686018427387904
+//@   modifies icounter.passedRecordsCountTotal, icounter.passedRecordsLengthTotal
+//@   ensures[one-record-and-its-length] icounter.passedRecordsCountTotal.unwrittenValue == old(icounter.passedRecordsCountTotal.unwrittenValue) + 1
+//@        && icounter.passedRecordsLengthTotal.unwrittenValue == old(icounter.passedRecordsLengthTotal.unwrittenValue) + record.RawLength
+//@        && icounter.passedRecordsCountTotal.metric == old(icounter.passedRecordsCountTotal.metric) && icounter.passedRecordsLengthTotal.metric == old(icounter.passedRecordsLengthTotal.metric)
+//@ func (icounter *LogInputCounterSet) CountRecordDrop(record *LogRecord)
+//@   property C19
+//@   requires icounter != nil && record != nil && record.RawLength >= 0 && icounter.droppedRecordsCountTotal.unwrittenValue < 4611686018427387904 && icounter.droppedRecordsLengthTotal.unwrittenValue < 4611686018427387904 && record.RawLength < 4611686018427387904
+//@   modifies icounter.droppedRecordsCountTotal, icounter.droppedRecordsLengthTotal
+//@   ensures[one-record-and-its-length] icounter.droppedRecordsCountTotal.unwrittenValue == old(icounter.droppedRecordsCountTotal.unwrittenValue) + 1
+//@        && icounter.droppedRecordsLengthTotal.unwrittenValue == old(icounter.droppedRecordsLengthTotal.unwrittenValue) + record.RawLength
+//@        && icounter.droppedRecordsCountTotal.metric == old(icounter.droppedRecordsCountTotal.metric) && icounter.droppedRecordsLengthTotal.metric == old(icounter.droppedRecordsLengthTotal.metric)
+
+//@ func (cnt *logCustomCounterImpl) CountRecord(recordLength int)
+//@   property C19
+//@   requires cnt != nil && recordLength >= 0 && recordLength < 4611686018427387904 && cnt.unwrittenCount < 4611686018427387904 && cnt.unwrittenLength < 4611686018427387904
+//@   modifies cnt.unwrittenCount, cnt.unwrittenLength
+//@   ensures[one-record-and-its-length] cnt.unwrittenCount == old(cnt.unwrittenCount) + 1 && cnt.unwrittenLength == old(cnt.unwrittenLength) + recordLength
+//@ func (cnt *logCustomCounterImpl) UpdateMetrics()
+//@   property C19
+//@   requires cnt != nil && cnt.countMetric != nil && cnt.lengthMetric != nil && ref(cnt.countMetric) != ref(cnt.lengthMetric)
+//@   modifies cnt.unwrittenCount, cnt.unwrittenLength, mval[ref(cnt.countMetric)], mval[ref(cnt.lengthMetric)]
+//@   ensures[flush-conserves-the-totals] mval[ref(cnt.countMetric)] == old(mval[ref(cnt.countMetric)] + cnt.unwrittenCount) && mval[ref(cnt.lengthMetric)] == old(mval[ref(cnt.lengthMetric)] + cnt.unwrittenLength)
+//@        && cnt.unwrittenCount == 0 && cnt.unwrittenLength == 0
